@@ -383,6 +383,7 @@ class PageTemplate(BaseTemplate):
             'enable_comment_interpolation',
             'restricted_namespace',
             'default_expression',
+            'mode',
         ):
             v = getattr(self, attr)
             if isinstance(v, (set, frozenset, list, tuple)):
